@@ -15,11 +15,12 @@ from .. import tokenize as T
 PROP = "C03"
 TYPES = ["hex", "srec", "bin", "elf", "wdc", "uf2"]
 # cpu, bytes per address
-CARRIERS = [("msp430", 1), ("68000", 1), ("mips", 1), ("avr8", 2), ("arm", 1)]
+# "" = no CPU directive (the default CPU)
+CARRIERS = [("msp430", 1), ("68000", 1), ("mips", 1), ("avr8", 2), ("arm", 1), ("", 1)]
 
 
 def render(layout, cpu, bpa, variant):
-    lines = [".%s" % cpu]
+    lines = [".%s" % cpu] if cpu else []
     names = []
     for si, s in enumerate(layout):
         start = (s["st"]["h"] << 16) | s["st"]["l"]
